@@ -4,7 +4,8 @@
 From Coq Require Import List Arith ZArith Ring Lia.
 From TLV Require Import Base.Shape Base.PyList Base.Tensor Base.BigSum Base.Ops Model.Base Model.Factorized
   Proofs.FactorizedProofs Proofs.FactorizedProofs2 Proofs.FactorizedProofs3 Proofs.FactorizedProofs4
-  Proofs.FactorizedProofs5.
+  Proofs.FactorizedProofs5 Proofs.FactorizedProofs6 Proofs.FactorizedProofs7 Proofs.FactorizedProofs8
+  Proofs.FactorizedProofs9 Proofs.FactorizedProofs10.
 Import ListNotations.
 
 Definition is_ring {F : Type} (Op : fops F) : Prop :=
@@ -59,6 +60,16 @@ Theorem C03_cp_to_tensor_masked : forall (F : Type) (Op : fops F), is_ring Op ->
     forall idx, inb shp idx -> get (f0 Op) t idx = fmul Op (get (f0 Op) mask idx) (cp_entry F Op w fs R idx).
 Proof. exact cp_to_tensor_masked_spec. Qed.
 Print Assumptions C03_cp_to_tensor_masked.
+
+(* cp_norm: the squared norm computed from the Gram matrices of the factors (Hadamard product, weights on both sides) is the
+   sum of the squared entries of the reconstruction (cp_norm itself is the float sqrt of this number) *)
+Theorem C03_cp_normsq : forall (F : Type) (Op : fops F), is_ring Op ->
+  forall (w : option (tensor F)) (fs : list (tensor F)) (shp : list nat) (R : nat),
+  validate_cp w fs = Ok (shp, R) -> Forall (fun f => ndim f = 2) fs ->
+  cp_normsq Op w fs =
+  Ok (sum_idx F (f0 Op) (fadd Op) shp (fun idx => fmul Op (cp_entry F Op w fs R idx) (cp_entry F Op w fs R idx))).
+Proof. exact cp_normsq_spec. Qed.
+Print Assumptions C03_cp_normsq.
 
 (* non-vacuity: a weighted order-1 and an order-3 CP tensor pass the hypotheses; the two former order-1 defects as examples *)
 Example C03_cp_hyps_order1 : validate_cp (Some wW) [wA] = Ok ([3], 2) /\ Forall (fun f : tensor Z => ndim f = 2) [wA].
@@ -144,3 +155,124 @@ Print Assumptions C03_validate_tucker_iff.
 
 Example C03_tucker_hyps : tk_shapes Z 0 (Some 1) [mk [3; 2] [1; 2; 3; 4; 5; 6]%Z; mk [7; 7] []] [3; 2] [2; 2].
 Proof. constructor; [reflexivity|]. constructor; [reflexivity | constructor]. Qed.
+
+(* ------------------------------------------------------------------ PARAFAC2 *)
+(* parafac2_to_slice(i): entry (j, k) = sum_r (P_i B)[j, r] * (A[i, r] * w_r) * C[k, r]  (all sizes, weights or not) *)
+Theorem C03_parafac2_to_slice : forall (F : Type) (Op : fops F), is_ring Op ->
+  forall (w : option (tensor F)) (A B C : tensor F) (ps : list (tensor F)) (Js : list nat) (shp : list (list nat)) (I Q R K i : nat),
+  validate_parafac2 Op w [A; B; C] ps = Ok (shp, R) ->
+  shape A = [I; R] -> shape B = [Q; R] -> shape C = [K; R] -> w_ok F w R ->
+  Forall2 (fun (P : tensor F) J => shape P = [J; Q]) ps Js -> length ps = I -> i < I ->
+  exists t, parafac2_to_slice Op w [A; B; C] ps i = Ok t /\ shape t = [nth i Js 0; K] /\
+    forall j k, j < nth i Js 0 -> k < K ->
+      get2 Op t j k = p2_entry F Op w A B C (nth i ps (mk [] [])) Q R i j k.
+Proof. exact parafac2_to_slice_spec. Qed.
+Print Assumptions C03_parafac2_to_slice.
+
+(* parafac2_to_tensor (through parafac2_to_slices, weights absorbed into A): block i holds slice i in its first J_i rows and
+   zeros up to the longest slice -- any number of slices, uneven lengths *)
+Theorem C03_parafac2_to_tensor : forall (F : Type) (Op : fops F), is_ring Op ->
+  forall (w : option (tensor F)) (A B C : tensor F) (ps : list (tensor F)) (Js : list nat) (shp : list (list nat)) (I Q R K : nat),
+  validate_parafac2 Op w [A; B; C] ps = Ok (shp, R) ->
+  shape A = [I; R] -> shape B = [Q; R] -> shape C = [K; R] -> w_ok F w R ->
+  Forall2 (fun (P : tensor F) J => shape P = [J; Q]) ps Js -> length ps = I ->
+  exists t, parafac2_to_tensor Op w [A; B; C] ps = Ok t /\ shape t = [I; fold_right Nat.max 0 Js; K] /\
+    forall i j k, i < I -> j < fold_right Nat.max 0 Js -> k < K ->
+      get (f0 Op) t [i; j; k] =
+        if j <? nth i Js 0 then p2_entry F Op w A B C (nth i ps (mk [] [])) Q R i j k else f0 Op.
+Proof. exact parafac2_to_tensor_spec. Qed.
+Print Assumptions C03_parafac2_to_tensor.
+
+(* non-vacuity: two uneven slices (2 and 1 rows), rank 1, accepted by the validator *)
+Example C03_parafac2_hyps :
+  validate_parafac2 Zops (Some (mk [1] [3%Z])) [mk [2; 1] [1; 2]%Z; mk [1; 1] [1%Z]; mk [2; 1] [1; -1]%Z]
+                    [mk [2; 1] [0; 1]%Z; mk [1; 1] [-1]%Z] = Ok ([[2; 2]; [1; 2]], 1).
+Proof. vm_compute. reflexivity. Qed.
+
+(* _validate_parafac2_tensor accepts exactly: three factors, A with one row per projection and R columns, B and C matrices with R
+   columns, every projection a matrix with R orthonormal columns (P^T P = I, decided exactly), weights of leading length R; it
+   reports the slice shapes (J_i, K) and R.  For every carrier whose order test decides equality (true at Z: C03_feqb_Z) *)
+Theorem C03_validate_parafac2_iff : forall (F : Type) (Op : fops F),
+  (forall x y : F, feqb Op x y = true <-> x = y) ->
+  forall (w : option (tensor F)) (fs ps : list (tensor F)) (shps : list (list nat)) (R : nat),
+  validate_parafac2 Op w fs ps = Ok (shps, R) <->
+  exists A B C K,
+    fs = [A; B; C] /\ (exists rest, shape A = length ps :: R :: rest) /\ (exists q, shape B = [q; R]) /\ shape C = [K; R] /\
+    Forall2 (proj_ok F Op R K) ps shps /\
+    match w with None => True | Some wt => exists rest, shape wt = R :: rest end.
+Proof. exact validate_parafac2_iff. Qed.
+Print Assumptions C03_validate_parafac2_iff.
+Example C03_feqb_Z : forall x y : Z, feqb Zops x y = true <-> x = y.
+Proof. exact feqb_Zops. Qed.
+
+(* ------------------------------------------------------------------ TT-matrix *)
+(* _validate_tt_matrix accepts exactly: a non-empty list of 4-D cores (r_k, in_k, out_k, r_k+1), consecutive ranks equal, both
+   boundary ranks 1; reports (in sizes ++ out sizes, ranks) *)
+Theorem C03_validate_ttm_iff : forall (F : Type) (cs : list (tensor F)) (shp rk : list nat),
+  validate_ttm cs = Ok (shp, rk) <->
+  cs <> [] /\ exists ns ms rs, shp = ns ++ ms /\ rk = rs ++ [1] /\ chain_shapes4 F 1 cs ns ms rs 1.
+Proof. exact validate_ttm_iff. Qed.
+Print Assumptions C03_validate_ttm_iff.
+
+(* tt_matrix_to_tensor (core backend: tensordot chain, reshape to the interleaved shape, transposition evens ++ odds):
+   entry (i_1..i_N, o_1..o_N) = (G_1[:, i_1, o_1, :] ... G_N[:, i_N, o_N, :])[0, 0]; any number of cores, positive ranks *)
+Theorem C03_ttm_to_tensor : forall (F : Type) (Op : fops F), is_ring Op ->
+  forall (cs : list (tensor F)) (ns ms : list nat),
+  cs <> [] -> ttm_cores F 1 cs ns ms 1 ->
+  exists t, ttm_to_tensor Op cs = Ok t /\ shape t = ns ++ ms /\
+    forall is os, inb ns is -> inb ms os -> get (f0 Op) t (is ++ os) = chain4 F Op cs (interleave is os) 0 0.
+Proof. exact ttm_to_tensor_spec. Qed.
+Print Assumptions C03_ttm_to_tensor.
+
+(* tt_matrix_to_matrix: row = row-major index over the in dims, column = row-major index over the out dims *)
+Theorem C03_ttm_to_matrix : forall (F : Type) (Op : fops F), is_ring Op ->
+  forall (cs : list (tensor F)) (ns ms : list nat),
+  cs <> [] -> ttm_cores F 1 cs ns ms 1 -> 0 < prod ns ->
+  exists M, ttm_to_matrix Op cs = Ok M /\ shape M = [prod ns; prod ms] /\
+    forall is os, inb ns is -> inb ms os ->
+      get2 Op M (ravel ns is) (ravel ms os) = chain4 F Op cs (interleave is os) 0 0.
+Proof. exact ttm_to_matrix_spec. Qed.
+Print Assumptions C03_ttm_to_matrix.
+
+Example C03_ttm_hyps : ttm_cores Z 1 [mk [1; 2; 1; 2] [1; 2; 3; 4]%Z; mk [2; 1; 3; 1] [1; 0; 2; -1; 1; 1]%Z] [2; 1] [1; 3] 1.
+Proof. econstructor; [reflexivity | lia |]. econstructor; [reflexivity | lia | constructor]. Qed.
+
+(* ------------------------------------------------------------------ reported shape = shape of the reconstruction *)
+(* whatever a validator accepts (with positive ranks / sizes) is reconstructed, WITH THE REPORTED SHAPE, to the defining contraction *)
+Theorem C03_tt_validated : forall (F : Type) (Op : fops F), is_ring Op ->
+  forall (cs : list (tensor F)) (shp rk : list nat),
+  validate_tt cs = Ok (shp, rk) -> Forall (fun x => 0 < x) rk -> 0 < prod shp ->
+  exists t, tt_to_tensor Op cs = Ok t /\ shape t = shp /\
+    forall idx, inb shp idx -> get (f0 Op) t idx = chain F Op cs idx 0 0.
+Proof. exact tt_validated. Qed.
+Print Assumptions C03_tt_validated.
+
+Theorem C03_tr_validated : forall (F : Type) (Op : fops F), is_ring Op ->
+  forall (cs : list (tensor F)) (shp rk : list nat),
+  validate_tr cs = Ok (shp, rk) -> Forall (fun x => 0 < x) rk -> 0 < prod shp ->
+  exists t, tr_to_tensor Op cs = Ok t /\ shape t = shp /\
+    forall idx, inb shp idx -> get (f0 Op) t idx = fsumn Op (hd 0 rk) (fun a => chain F Op cs idx a a).
+Proof. exact tr_validated. Qed.
+Print Assumptions C03_tr_validated.
+
+Theorem C03_tucker_validated : forall (F : Type) (Op : fops F), is_ring Op ->
+  forall (core : tensor F) (fs : list (tensor F)) (shp rk : list nat),
+  validate_tucker core fs = Ok (shp, rk) -> wf core -> 0 < prod rk -> 0 < prod shp ->
+  exists t, tucker_to_tensor Op core fs None false = Ok t /\ shape t = shp /\
+    forall idx, inb shp idx ->
+      get (f0 Op) t idx =
+      sum_idx F (f0 Op) (fadd Op) rk (fun js => fmul Op (get (f0 Op) core js) (tk_prod F Op 0 None fs idx js)).
+Proof. exact tucker_validated. Qed.
+Print Assumptions C03_tucker_validated.
+
+Theorem C03_ttm_validated : forall (F : Type) (Op : fops F), is_ring Op ->
+  forall (cs : list (tensor F)) (shp rk : list nat),
+  validate_ttm cs = Ok (shp, rk) -> Forall (fun x => 0 < x) rk ->
+  exists t ns ms, ttm_to_tensor Op cs = Ok t /\ shape t = shp /\ shp = ns ++ ms /\ length ns = length cs /\ length ms = length cs /\
+    forall is os, inb ns is -> inb ms os -> get (f0 Op) t (is ++ os) = chain4 F Op cs (interleave is os) 0 0.
+Proof. exact ttm_validated. Qed.
+Print Assumptions C03_ttm_validated.
+
+Example C03_tr_validated_hyps :
+  validate_tr [mk [2; 1; 3] [1; 2; 3; 4; 5; 6]%Z; mk [3; 2; 2] (repeat 1%Z 12)] = Ok ([1; 2], [2; 3; 2]).
+Proof. reflexivity. Qed.
